@@ -106,6 +106,10 @@ type conf struct {
 	mock                            bool
 	codeLen, maxVerify, maxCount    int
 	ttlNever, ivNever, refreshNever bool
+	// expiredBy selects how the "always expired" lifetime is written: 0 = -1s, 1 = -1ms,
+	// 2 = -1ns (all of them are already over at any later instant; exactly 0 is not used: two
+	// clock readings may coincide)
+	expiredBy int
 }
 
 func (c conf) String() string {
@@ -121,7 +125,7 @@ func (c conf) String() string {
 	}
 	return fmt.Sprintf("%s CodeLen=%d MaxVerifyCount=%d MaxCount=%d TTL=%s MinInterval=%s CounterDuration=%s",
 		mode, c.codeLen, c.maxVerify, c.maxCount,
-		b2s(c.ttlNever, "-1s(always expired)", "1000h(never expires)"),
+		b2s(c.ttlNever, []string{"-1s", "-1ms", "-1ns"}[c.expiredBy%3]+"(always expired)", "1000h(never expires)"),
 		b2s(c.ivNever, "1000h(always too close)", "0(never too close)"),
 		b2s(c.refreshNever, "-1s(window always refreshes)", "1000h(window never refreshes)"))
 }
@@ -137,7 +141,7 @@ func (c conf) config(cacheSize int64) *vcode.Config {
 	if c.ttlNever {
 		cf.TTL = tex.Duration(never)
 	} else {
-		cf.TTL = tex.Duration(always)
+		cf.TTL = tex.Duration([]time.Duration{always, -time.Millisecond, -time.Nanosecond}[c.expiredBy%3])
 	}
 	if c.ivNever {
 		cf.MinInterval = tex.Duration(0)
